@@ -885,6 +885,7 @@ namespace
               J.attribute("t", type_str(t));
               J.attribute("storage", "field");
               if (fld->isMutable()) J.attribute("mutable", 1);
+              if (fld->hasInClassInitializer()) J.attribute("dinit", 1);
               if (t->isReferenceType())
                 {
                   J.attribute("ref", "ref");
